@@ -123,6 +123,15 @@ pub fn templates() -> Vec<Template> {
         },
         Template { name: "T7-diff-syntax-payload", files: vec![t7], blocks: vec![spec(0, 0, Some("a"), &[(None, "b")]), spec(1, 0, Some("b"), &[])] },
     ];
+    // T9: template T1 with CR LF line ends.
+    {
+        let mut files = all[0].files.clone();
+        for f in &mut files {
+            f.crlf = true;
+        }
+        let blocks = all[0].blocks.clone();
+        all.push(Template { name: "T9-siblings-crlf", files, blocks });
+    }
     all.push(Template {
         name: "T8-no-newline-colon-names",
         files: vec![t8, t8w],
@@ -694,7 +703,7 @@ fn modes_case(cfg: &Cfg, t: &Template, ti: usize, s: &State, sink: &Sink) {
 }
 
 pub fn run(cfg: &Cfg, sink: &Arc<Sink>) -> Report {
-    let mut report = Report::new("states = repository contents reached from a labelled template (8 templates: siblings, cross-file Markdown/HTML, nested, Rust multi-line tag in a 3-line comment, cycle + duplicate names + missing target + unnamed, repeated/blank lines, diff-syntax payload without trailing newline, a file without trailing newline ending in an outside line with colon-holding block names referenced in and across files) by line insertions (fresh or duplicate of the neighbour), deletions and replacements at every position, and tag-line edits that keep tags balanced; states with equal contents are merged; in every state real `git diff -U<k>` is taken against the template and the real code runs without path arguments, with `**` and with a path argument matching nothing; oracle L1: a block must be content-modified if a `-` old line or `+` new line of the diff is labelled content of it, must not be if no changed line is inside it, on its tag comments or adjoining them, else don't care; L2: affects diagnostics = per modified block with `affects`, one per referenced (file, name) without a modified block of that name; L3: status 1 iff L2 non-empty; non-trivial = every state ≠ template");
+    let mut report = Report::new("states = repository contents reached from a labelled template (9 templates: siblings (LF and CR LF), cross-file Markdown/HTML, nested, Rust multi-line tag in a 3-line comment, cycle + duplicate names + missing target + unnamed, repeated/blank lines, diff-syntax payload without trailing newline, a file without trailing newline ending in an outside line with colon-holding block names referenced in and across files) by line insertions (fresh or duplicate of the neighbour), deletions and replacements at every position, and tag-line edits that keep tags balanced; states with equal contents are merged; in every state real `git diff -U<k>` is taken against the template and the real code runs without path arguments, with `**` and with a path argument matching nothing; oracle L1: a block must be content-modified if a `-` old line or `+` new line of the diff is labelled content of it, must not be if no changed line is inside it, on its tag comments or adjoining them, else don't care; L2: affects diagnostics = per modified block with `affects`, one per referenced (file, name) without a modified block of that name; L3: status 1 iff L2 non-empty; non-trivial = every state ≠ template");
     report.assume("git 2.39 produces the diffs; the own diff reader is driven by @@ counts only");
     report.assume("labels of old and new lines are known by construction; tag lines are never deleted, so every block exists in both trees");
     let n = templates().len();
